@@ -80,6 +80,8 @@ pub struct TargetFrame {
     pub lane: String,
     pub body: Bytes,
     pub is_command: bool,
+    /// The stream on this channel could not be decoded as a request frame (lane = error text).
+    pub corrupt: bool,
 }
 
 pub struct Obs {
@@ -372,7 +374,24 @@ async fn link_server(
                 let reader = PacedReader::new(rx, ctl, rng.fork());
                 tokio::spawn(async move {
                     let mut framed = FramedRead::new(reader, RawRequestMessageDecoder);
-                    while let Some(Ok(msg)) = framed.next().await {
+                    loop {
+                        let msg = match framed.next().await {
+                            Some(Ok(msg)) => msg,
+                            Some(Err(e)) => {
+                                frames.lock().push(TargetFrame {
+                                    ticket: ticket(),
+                                    key: key.clone(),
+                                    target: idx,
+                                    node: String::new(),
+                                    lane: format!("{e}"),
+                                    body: Bytes::new(),
+                                    is_command: false,
+                                    corrupt: true,
+                                });
+                                break;
+                            }
+                            None => break,
+                        };
                         let (is_command, body) = match msg.envelope {
                             Operation::Command(b) => (true, b),
                             _ => (false, Bytes::new()),
@@ -385,6 +404,7 @@ async fn link_server(
                             lane: msg.path.lane.as_str().to_string(),
                             body,
                             is_command,
+                            corrupt: false,
                         });
                     }
                 });
